@@ -2,6 +2,8 @@ package main
 
 import (
 	"fmt"
+	"go/token"
+	"sort"
 	"go/constant"
 	"go/types"
 	"strings"
@@ -19,6 +21,7 @@ func init() {
 			"C07.3 (=C01.5) expiry closures remove exactly their own entry; " +
 			"C07.4 the defaults replacing a zero configuration are constants equal to 5 and 10 minutes; " +
 			"C07.6 installed addresses do not alias decode storage (else expiry removes another peer's key); " +
+			"C07.7 the lifetime timer that a refresh restarts belongs to the entry the table holds now (obtained by lookup/index/range of the table through all call sites), never to a pointer remembered elsewhere; " +
 			"C07.5 find-and-remove in RemoveChannelBind/RemovePermission is one critical section: every direct read of the table in a function that removes from it happens under the same continuous hold of the write lock.",
 		NotCovered: "the instants at which timers fire; that an expired number/peer is free again beyond the removal checked in C07.3; races between expiry and a concurrent refresh.",
 		Run:        runC07,
@@ -283,6 +286,7 @@ func runC07(c *Ctx) {
 	// ---- C07.5
 	ruleAtomicRemove(c, "C07.5")
 	ruleInstalledAddrFresh(c, "C07.6")
+	ruleTimerOnLiveEntry(c, "C07.7")
 }
 
 // allPathsTo: every path from the function entry to block `to` contains an instruction
@@ -500,4 +504,190 @@ func (w *World) timerOpOf(in ssa.Instruction) *timerOp {
 		}
 	}
 	return nil
+}
+
+// ---------------------------------------------------------------------------------
+// C07.7 — a lifetime timer is restarted only on the entry the table holds now
+
+// ptrOrigins: where a pointer value comes from, followed through parameters (all static call
+// sites), results of module functions, phis and captured variables (depth-limited). Leaves:
+//
+//	table:<T.f>   an element of the collection in field f (lookup, index, range)
+//	field:<T.f>   loaded from any other heap field (a remembered pointer)
+//	fresh         allocated here
+//	pool          taken out of a sync.Pool (exclusively owned until put back)
+//	nil           the nil constant
+//	api:<fn>      a parameter of a function without module callers
+//	other:<…>     anything else
+func (w *World) ptrOrigins(v ssa.Value, depth int, seen map[ssa.Value]bool, out map[string]bool) {
+	v = stripIface(w.resolveLoad(v))
+	if v == nil || seen[v] {
+		return
+	}
+	seen[v] = true
+	if depth <= 0 {
+		out["other:depth"] = true
+		return
+	}
+	tableOf := func(coll ssa.Value) string {
+		coll = stripIface(w.resolveLoad(coll))
+		if _, f, ok := fieldLoad(coll); ok {
+			return "table:" + fieldOwnerName(w, f) + "." + f.Name()
+		}
+		return ""
+	}
+	switch x := v.(type) {
+	case *ssa.Const:
+		if x.Value == nil {
+			out["nil"] = true
+			return
+		}
+	case *ssa.Alloc:
+		out["fresh"] = true
+		return
+	case *ssa.Parameter:
+		fn := x.Parent()
+		idx := paramIndex(x)
+		n := 0
+		if node := w.CG.Nodes[fn]; node != nil && !w.fnUsedAsValue()[fn] {
+			for _, e := range node.In {
+				if e.Site == nil || !w.IsMod[e.Caller.Func] || e.Site.Common().StaticCallee() != fn {
+					continue
+				}
+				if args := e.Site.Common().Args; idx >= 0 && idx < len(args) {
+					n++
+					w.ptrOrigins(args[idx], depth-1, seen, out)
+				}
+			}
+		}
+		if n == 0 {
+			out["api:"+fname(fn)] = true
+		}
+		return
+	case *ssa.FreeVar:
+		if b := w.binding(x); b != nil {
+			w.ptrOrigins(b, depth-1, seen, out)
+			return
+		}
+	case *ssa.Phi:
+		for i, e := range x.Edges {
+			if deadEdge(x.Block().Preds[i], x.Block()) {
+				continue
+			}
+			w.ptrOrigins(e, depth, seen, out)
+		}
+		return
+	case *ssa.Lookup:
+		if t := tableOf(x.X); t != "" {
+			out[t] = true
+			return
+		}
+	case *ssa.Extract:
+		switch tu := x.Tuple.(type) {
+		case *ssa.Lookup:
+			if t := tableOf(tu.X); t != "" && x.Index == 0 {
+				out[t] = true
+				return
+			}
+		case *ssa.Next:
+			if rg, ok := tu.Iter.(*ssa.Range); ok {
+				if t := tableOf(rg.X); t != "" {
+					out[t] = true
+					return
+				}
+			}
+		case *ssa.Call:
+			if h := tu.Call.StaticCallee(); h != nil && w.IsMod[h] && len(h.Blocks) > 0 {
+				for _, r := range returnsOf(h) {
+					if x.Index < len(r.Results) {
+						w.ptrOrigins(r.Results[x.Index], depth-1, seen, out)
+					}
+				}
+				return
+			}
+		}
+	case *ssa.Call:
+		if h := x.Call.StaticCallee(); h != nil && w.IsMod[h] && len(h.Blocks) > 0 {
+			for _, r := range returnsOf(h) {
+				if len(r.Results) > 0 {
+					w.ptrOrigins(r.Results[0], depth-1, seen, out)
+				}
+			}
+			return
+		}
+	case *ssa.UnOp:
+		if x.Op == token.MUL {
+			switch a := x.X.(type) {
+			case *ssa.IndexAddr:
+				if t := tableOf(a.X); t != "" {
+					out[t] = true
+					return
+				}
+				// element of a local snapshot (range over a copy): where the slice came from
+				w.ptrOrigins(a.X, depth-1, seen, out)
+				return
+			case *ssa.FieldAddr:
+				f := fieldOf(a)
+				out["field:"+fieldOwnerName(w, f)+"."+f.Name()] = true
+				return
+			}
+		}
+	case *ssa.Slice:
+		w.ptrOrigins(x.X, depth-1, seen, out)
+		return
+	case *ssa.FieldAddr:
+		// an interior pointer: part of the object the base points to
+		w.ptrOrigins(x.X, depth, seen, out)
+		return
+	case *ssa.TypeAssert:
+		if pc, _ := callOf(x.X); pc != nil && pc.Call.StaticCallee() != nil && pc.Call.StaticCallee().String() == "(*sync.Pool).Get" {
+			out["pool"] = true // taken out of a pool: owned by this invocation until it is put back
+			return
+		}
+	}
+	if ex, ok := v.(*ssa.Extract); ok {
+		if ta, isTA := ex.Tuple.(*ssa.TypeAssert); isTA && ex.Index == 0 {
+			if pc, _ := callOf(ta.X); pc != nil && pc.Call.StaticCallee() != nil && pc.Call.StaticCallee().String() == "(*sync.Pool).Get" {
+				out["pool"] = true
+				return
+			}
+		}
+	}
+	out[fmt.Sprintf("other:%T", v)] = true
+}
+
+// ruleTimerOnLiveEntry: restarting the lifetime timer of an entry that is no longer the one
+// in the table re-arms a callback that removes BY KEY — it then removes the entry that took
+// its place, cutting that one short. So the object of every Reset of a Permission /
+// ChannelBind lifetime timer must come (through helpers, all call sites) from the table
+// itself: a lookup, an index or a range over Allocation.permissions resp.
+// Allocation.channelBindings — never from a pointer remembered in another field.
+func ruleTimerOnLiveEntry(c *Ctx, rule string) {
+	w := c.W
+	c.Rule(rule, "restart on the live entry: the object of every Reset of a Permission / ChannelBind lifetime timer originates — through parameters at all call sites, helper results and phis — from a lookup, index or range of Allocation.permissions resp. Allocation.channelBindings (the entry the table holds now), not from a pointer remembered in another field", 2)
+	want := map[string]string{"Permission": "table:Allocation.permissions", "ChannelBind": "table:Allocation.channelBindings"}
+	for _, fn := range w.ModFns {
+		w.eachInstr(fn, func(in ssa.Instruction) {
+			op := w.timerOpOf(in)
+			if op == nil || op.kind != "reset" || want[op.typ] == "" {
+				return
+			}
+			c.Anchor(rule, op.typ+" reset")
+			org := map[string]bool{}
+			w.ptrOrigins(op.obj, 6, map[ssa.Value]bool{}, org)
+			var bad []string
+			for k := range org {
+				if k == want[op.typ] || k == "nil" {
+					continue
+				}
+				bad = append(bad, k)
+			}
+			sort.Strings(bad)
+			if len(bad) == 0 && org[want[op.typ]] {
+				c.OK(rule, fname(fn), op.typ+" reset", w.instrPos(in), "the timer restarted belongs to the entry just taken from "+strings.TrimPrefix(want[op.typ], "table:"))
+			} else {
+				c.Bad(rule, fname(fn), op.typ+" reset", w.instrPos(in), fmt.Sprintf("the %s whose lifetime timer is restarted here can come from %v rather than from the table: a remembered entry may already have expired and been replaced — its re-armed expiry callback then removes the live entry by key, cutting short a %s that was refreshed in time", op.typ, bad, strings.ToLower(op.typ)))
+			}
+		})
+	}
 }
